@@ -151,6 +151,7 @@ func envSeed(tier string) uint64 {
 }
 
 type finding struct {
+	foundTrace any // the trace of the run in which the violation was first seen (fault program, ops)
 	class    string
 	oracle   string
 	detail   string
@@ -233,7 +234,7 @@ func check(propID, tier string) int {
 	addViol := func(class, oracle, detail string, plan *core.Plan, bin string, rendered any) {
 		f := byClass[class]
 		if f == nil {
-			f = &finding{class: class, oracle: oracle, detail: detail, rendered: rendered}
+			f = &finding{class: class, oracle: oracle, detail: detail, rendered: rendered, foundTrace: rendered}
 			byClass[class] = f
 			firstPlan[class] = plan
 			firstBin[class] = bin
@@ -363,10 +364,11 @@ func check(propID, tier string) int {
 		path := filepath.Join(outDir, "replays", name)
 		raw, _ := json.MarshalIndent(struct {
 			*core.Plan
-			Class  string `json:"class"`
-			Oracle string `json:"oracle"`
-			Detail string `json:"detail"`
-		}{min, class, f.oracle, f.detail}, "", " ")
+			Class      string `json:"class"`
+			Oracle     string `json:"oracle"`
+			Detail     string `json:"detail"`
+			FoundTrace any    `json:"found_in_run,omitempty"` // trace of the run that first showed it (writer, fault program, reader)
+		}{min, class, f.oracle, f.detail, f.foundTrace}, "", " ")
 		if err := os.WriteFile(path, raw, 0o644); err != nil {
 			fatal2("%v", err)
 		}
